@@ -1,0 +1,52 @@
+//go:build verif
+
+package nfa
+
+// Contracts for the verification machinery in /verif (comment-only; no executable code).
+//
+// L-COMB: the shape of the comb.Result a mapper receives is fixed by the combinator expression that feeds it in
+// parser.New (CONCAT yields a List of the component results in order, OPT yields the component's result or
+// Empty{}, REP1 a non-empty List): assumed per mapper, written next to the grammar rule it belongs to.
+
+//@ import comb "github.com/moorara/algo/parser/combinator"
+//@ import auto "github.com/moorara/algo/automata"
+//@ import "github.com/gardenbed/emerge/internal/regex/parser"
+
+// upper_bound --> "," num?
+//@ func (m *mappers) ToUpperBound(r comb.Result) (comb.Result, bool)
+//@   requires m != nil
+//@   assumes @L-COMB typeis(r.Val, "comb.List") && len(unbox(r.Val, "comb.List")) == 2
+//@   ensures result1 && typeis(result0.Val, "*int")
+//@   ensures @bound-kept typeis(unbox(r.Val, "comb.List")[1].Val, "int") ==> unbox(result0.Val, "*int") != nil && deref(unbox(result0.Val, "*int")) == unbox(unbox(r.Val, "comb.List")[1].Val, "int")
+//@   ensures @unbounded !typeis(unbox(r.Val, "comb.List")[1].Val, "int") ==> unbox(result0.Val, "*int") == nil
+
+// range --> "{" num upper_bound? "}": a minimum that exceeds the maximum is recorded as an error
+//@ func (m *mappers) ToRange(r comb.Result) (comb.Result, bool)
+//@   requires m != nil
+//@   assumes @L-COMB typeis(r.Val, "comb.List") && len(unbox(r.Val, "comb.List")) == 4 && typeis(unbox(r.Val, "comb.List")[1].Val, "int")
+//@   assumes @L-COMB typeis(unbox(r.Val, "comb.List")[2].Val, "*int") ==> allocated(unbox(unbox(r.Val, "comb.List")[2].Val, "*int"))
+//@   modifies m.errors
+//@   ensures result1
+//@   ensures @errors-kept old(m.errors) != nil ==> m.errors != nil
+//@   ensures @min-exceeds-max typeis(unbox(r.Val, "comb.List")[2].Val, "*int") && unbox(unbox(r.Val, "comb.List")[2].Val, "*int") != nil
+//@     && unbox(unbox(r.Val, "comb.List")[1].Val, "int") > old(deref(unbox(unbox(r.Val, "comb.List")[2].Val, "*int"))) ==> m.errors != nil
+
+// char_range --> char_in_range "-" char_in_range: a descending range is recorded as an error
+//@ func (m *mappers) ToCharRange(r comb.Result) (comb.Result, bool)
+//@   requires m != nil
+//@   assumes @L-COMB typeis(r.Val, "comb.List") && len(unbox(r.Val, "comb.List")) == 3 && typeis(unbox(r.Val, "comb.List")[0].Val, "rune") && typeis(unbox(r.Val, "comb.List")[2].Val, "rune")
+//@   modifies m.errors
+//@   ensures @errors-kept old(m.errors) != nil ==> m.errors != nil
+//@   ensures @descending unbox(unbox(r.Val, "comb.List")[0].Val, "rune") > unbox(unbox(r.Val, "comb.List")[2].Val, "rune") ==> m.errors != nil
+
+//@ func runeRangesToNFA(neg bool, ranges ...[2]rune) (*auto.NFA, []rune)
+//@   opaque
+
+// Parse: any recorded semantic error and any syntax failure is returned; success never comes with a nil automaton.
+//@ func Parse(regex string) (*auto.NFA, error)
+//@   modifies everything
+//@   callsite Parser.Parse assumes @L-COMB result1 ==> typeis(result0.Result.Val, "*auto.NFA") && unbox(result0.Result.Val, "*auto.NFA") != nil
+//@   ensures @never-nil-nil result1 == nil ==> result0 != nil
+//@   ensures result1 != nil ==> result0 == nil
+//@   internal ensures @syntax-failure-returned !ok ==> result1 != nil
+//@   internal ensures @recorded-errors-returned m.errors != nil ==> result1 != nil
